@@ -97,6 +97,7 @@ func (t *tlv) enc() []byte {
 }
 
 func genC13(tier string, r *rng) {
+	genDerKeys(tier, r)
 	emitA := func(d []byte) { emit("asn1", hx(d)) }
 	intContent := func(v *big.Int) []byte { // minimal two's complement
 		if v.Sign() >= 0 {
